@@ -560,3 +560,149 @@ def build_T13d(tree):
 
 
 TARGETS['T13d'] = {'file': 'frame.py', 'build': build_T13d}
+
+
+# ------------------------------------------------------------------ T13g: the glue -- who calls encode_frame / decode_frame with what
+GLUE_SITES = [
+    # (file, qualified function, callee)
+    ('image.py', '_CombinedPixelTransform.__call__', 'decode_frame'),
+    ('image.py', '_Image.get_stored_frame', 'decode_frame'),
+    ('image.py', '_Image.get_stored_frames', 'decode_frame'),
+    ('io.py', 'ImageFileReader.read_frame', 'decode_frame'),
+    ('sc/sop.py', 'SCImage.__init__', 'encode_frame'),
+    ('pm/sop.py', 'ParametricMap._encode_frame', 'encode_frame'),
+    ('legacy/sop.py', '_convert_legacy_to_enhanced', 'encode_frame'),
+]
+# owners whose attributes are the attributes of the image data set itself
+GLUE_OWNERS = ('self', 'image', 'ds', 'mf_dataset', 'self.metadata')
+GLUE_LOCALS = ('frame_index', 'index', 'raw_frame', 'frame', 'frame_data', 'pixel_array', 'ds.pixel_array * 1')
+
+
+def _glue_tree(rel):
+    with open(os.path.join(_repo_src(), rel)) as f:
+        return ast.parse(f.read())
+
+
+def _glue_property(rel, cls, name):
+    """the expression a read-only property returns (`return <expr>` as its last statement; statements before it may only be
+    bare expressions such as `self.metadata  # ensure metadata has been read`)"""
+    fn = find_func(_glue_tree(rel), f'{cls}.{name}')
+    if [ast.unparse(d) for d in fn.decorator_list] != ['property']:
+        raise Unsupported(f'{cls}.{name} is no longer a plain property')
+    body = strip_doc(fn.body)
+    if not body or not isinstance(body[-1], ast.Return) or any(not isinstance(s, ast.Expr) for s in body[:-1]):
+        raise Unsupported(f'{cls}.{name}: body is not `return <expr>`')
+    return body[-1].value, fn
+
+
+def _glue_norm(e, site_cls, rel, init_assign, spans):
+    """normal form of an argument expression: the data set attribute it reads (`Rows`, `file_meta.TransferSyntaxUID`),
+    `K|D` = attribute K when present, else D (`X.get('K', X.D)`; `K|None`: `X.get('K')`, `getattr(X, 'K', None)`), or
+    `local:<text>` for the frame bytes / array / index handed through"""
+    txt = ast.unparse(e)
+    if txt in GLUE_LOCALS:
+        return 'local:' + txt
+    # wrappers that do not change the value
+    if isinstance(e, ast.Call) and ast.unparse(e.func) in ('UID', 'hd_UID') and len(e.args) == 1 and not e.keywords:
+        return _glue_norm(e.args[0], site_cls, rel, init_assign, spans)
+    if isinstance(e, ast.Call) and isinstance(e.func, ast.Attribute) and e.func.attr == 'get' and not e.keywords \
+            and ast.unparse(e.func.value) in GLUE_OWNERS and e.args and isinstance(e.args[0], ast.Constant):
+        if len(e.args) == 1:
+            return f'{e.args[0].value}|None'
+        if len(e.args) == 2:
+            d = _glue_norm(e.args[1], site_cls, rel, init_assign, spans)
+            return f'{e.args[0].value}|{d}'
+    if isinstance(e, ast.Call) and ast.unparse(e.func) == 'getattr' and len(e.args) == 3 and not e.keywords \
+            and ast.unparse(e.args[0]) in GLUE_OWNERS and isinstance(e.args[1], ast.Constant) and ast.unparse(e.args[2]) == 'None':
+        return f'{e.args[1].value}|None'
+    if isinstance(e, ast.Attribute):
+        owner = ast.unparse(e.value)
+        if owner in GLUE_OWNERS:
+            if e.attr[:1].isupper():
+                return e.attr
+            # a lower-case attribute of `self`: an instance attribute set in __init__ (the pixel transform) or a property
+            if owner == 'self' and e.attr in init_assign:
+                return _glue_norm(init_assign[e.attr], site_cls, rel, {}, spans)
+            if owner == 'self' and e.attr == 'transfer_syntax_uid':
+                if site_cls == 'ImageFileReader':
+                    val, fn = _glue_property('io.py', 'ImageFileReader', 'transfer_syntax_uid')
+                else:
+                    val, fn = _glue_property('base.py', 'SOPClass', 'transfer_syntax_uid')
+                spans.append(fn)
+                return _glue_norm(val, site_cls, rel, {}, spans)
+        if isinstance(e.value, ast.Attribute) and e.value.attr in ('file_meta', '_file_meta') \
+                and ast.unparse(e.value.value) in GLUE_OWNERS:
+            return 'file_meta.' + e.attr
+    raise Unsupported(f'argument expression outside the glue fragment: {txt[:80]}')
+
+
+def build_T13g(tree):
+    """Every call of `decode_frame` / `encode_frame` in the image classes (`image.py` pixel transform, `get_stored_frame`,
+    `get_stored_frames`; `io.ImageFileReader.read_frame`; `SCImage.__init__`; `ParametricMap._encode_frame`; the legacy
+    converter): (site, callee, parameter, normal form of the argument, argument as written).  Positional arguments are named
+    through the callee's current signature; a parameter that is not passed is listed as `<default>`.  `Proofs/CodecGlue.lean`
+    proves that each reader hands `decode_frame` the data set's own attribute for every parameter (`call_sites_tie`).
+    `**kwargs` / `*args` at a call site, a second call in a site, a site that no longer calls, an argument outside the normal
+    forms: TRANSLATION-BROKEN.  (`seg/sop.py` passes a keyword dictionary: outside, C01-C04.)"""
+    sigs = {}
+    for name in ('encode_frame', 'decode_frame'):
+        a = find_func(tree, name).args
+        if a.vararg or a.kwarg or a.kwonlyargs or a.posonlyargs:
+            raise Unsupported(f'{name}: signature with *args / **kwargs / keyword-only parameters')
+        sigs[name] = [p.arg for p in a.args]
+    rows, spans = [], []
+    for rel, qual, callee in GLUE_SITES:
+        t = tree if rel == 'frame.py' else _glue_tree(rel)
+        fn = find_func(t, qual)
+        if fn.decorator_list:
+            raise Unsupported(f'{qual} is wrapped by a decorator')
+        calls = [n for n in ast.walk(fn) if isinstance(n, ast.Call) and ast.unparse(n.func) == callee]
+        other = [n for n in ast.walk(fn) if isinstance(n, ast.Name) and n.id in ('encode_frame', 'decode_frame')]
+        if len(calls) != 1 or len(other) != 1:
+            raise Unsupported(f'{qual}: expected exactly one use of {callee}, found {len(calls)} call(s) / {len(other)} mention(s)')
+        c = calls[0]
+        if any(kw.arg is None for kw in c.keywords) or any(isinstance(x, ast.Starred) for x in c.args):
+            raise Unsupported(f'{qual}: *args / **kwargs in the call of {callee}')
+        cls = qual.split('.')[0] if '.' in qual else ''
+        init_assign = {}
+        if cls == '_CombinedPixelTransform':
+            init = find_func(t, '_CombinedPixelTransform.__init__')
+            for s in ast.walk(init):
+                if isinstance(s, ast.Assign) and len(s.targets) == 1 and isinstance(s.targets[0], ast.Attribute) \
+                        and ast.unparse(s.targets[0].value) == 'self':
+                    k = s.targets[0].attr
+                    if k in sigs[callee]:
+                        if k in init_assign:
+                            raise Unsupported(f'_CombinedPixelTransform.__init__ assigns self.{k} more than once')
+                        init_assign[k] = s.value
+                        spans.append(s)
+            # ... and nothing else of the class may rebind them
+            for m in find_func(t, '_CombinedPixelTransform').body:
+                if isinstance(m, ast.FunctionDef) and m.name != '__init__':
+                    for s in ast.walk(m):
+                        if isinstance(s, ast.Attribute) and isinstance(s.ctx, ast.Store) and ast.unparse(s.value) == 'self' \
+                                and s.attr in sigs[callee]:
+                            raise Unsupported(f'_CombinedPixelTransform.{m.name} rebinds self.{s.attr}')
+        got = {}
+        for prm, arg in zip(sigs[callee], c.args):
+            got[prm] = arg
+        for kw in c.keywords:
+            if kw.arg in got or kw.arg not in sigs[callee]:
+                raise Unsupported(f'{qual}: keyword {kw.arg} of {callee} given twice / unknown')
+            got[kw.arg] = kw.value
+        for prm in sigs[callee]:
+            if prm in got:
+                rows.append((f'{rel}:{qual}', callee, prm, _glue_norm(got[prm], cls, rel, init_assign, spans), ast.unparse(got[prm])))
+            else:
+                rows.append((f'{rel}:{qual}', callee, prm, '<default>', ''))
+        spans.append(c)
+    q = lambda s: '"' + s.replace('\\', '\\\\').replace('"', '\\"') + '"'   # noqa: E731
+    text = lean_table('frameCodecCallSites', 'List (String × String × String × String × String)',
+                      ['(' + ', '.join(q(x) for x in r) + ')' for r in rows],
+                      doc='(site, callee, parameter, normal form of the argument, argument as written) for every call of '
+                          '`decode_frame` / `encode_frame` in the image classes; normal form: data set attribute, `K|D` = K when '
+                          'present else D, `local:..` = value handed through, `<default>` = not passed')
+    return text, span_sha(spans)
+
+
+TARGETS['T13g'] = {'file': 'frame.py', 'build': build_T13g}
